@@ -1,8 +1,93 @@
+import NaijaVerif.Model.Lex
+import NaijaVerif.Spec.Utf8
 import NaijaVerif.Driver.Util
-/-! Family `lex` — stub (replaced by the unit that owns this family). -/
+
+/-! Family `lex` (see `harness/src/lex.rs` for the protocol):
+```
+lex <hex src>                 -> toks=<T> diags=<D> labels=<L> end=ok      | bad-utf8
+relay <hex orig> <hex text>   -> the same answer, for <text>
+```
+`<T>` is `toksStr`: tokens joined by `,`, each `<kind>@<lo>:<hi>`, with payloads `ident:<hex>`,
+`num:<hex>`, `str:<hex>:<0|1>` (`-` = empty payload, `-` = empty list).  `readToks` reads it back
+(used by the `parse` family, whose requests carry token lists). -/
+
+namespace NaijaVerif.Lex
+open NaijaVerif.Driver
+
+/-- `kind[:payload[:esc]]` -/
+def tokPayloadStr : Tok → String
+  | .str c e => s!"str:{hex c}:{if e then 1 else 0}"
+  | .ident n => s!"ident:{hex n}"
+  | .num l => s!"num:{hex l}"
+  | t => t.kindName
+
+def spTokStr (t : SpTok) : String := s!"{tokPayloadStr t.tok}@{t.span.lo}:{t.span.hi}"
+
+/-- Canonical text of a token list. -/
+def toksStr (ts : List SpTok) : String :=
+  if ts.isEmpty then "-" else ",".intercalate (ts.map spTokStr)
+
+/-- all tokens without payload -/
+def plainToks : List Tok := [
+  .make, .get, .add, .minus, .times, .divide, .mod, .and, .or, .not, .jasi, .start, .end, .comot,
+  .next, .na, .pass, .smallPass, .ifToSay, .ifNotSo, .do, .ret, .tru, .fals, .null, .lparen,
+  .rparen, .lbracket, .rbracket, .comma, .dot, .eof]
+
+def readTok (s : String) : Option SpTok :=
+  match s.splitOn "@" with
+  | [pay, sp] =>
+    match sp.splitOn ":" with
+    | [a, b] =>
+      match a.toNat?, b.toNat? with
+      | some lo, some hi =>
+        let tok : Option Tok :=
+          match pay.splitOn ":" with
+          | ["str", h, e] =>
+            match unhex h, e with
+            | some c, "0" => some (.str c false)
+            | some c, "1" => some (.str c true)
+            | _, _ => none
+          | ["ident", h] => (unhex h).map .ident
+          | ["num", h] => (unhex h).map .num
+          | [k] => plainToks.find? (·.kindName == k)
+          | _ => none
+        tok.map fun t => ⟨t, ⟨lo, hi⟩⟩
+      | _, _ => none
+    | _ => none
+  | _ => none
+
+/-- Inverse of `toksStr`. -/
+def readToks (s : String) : Option (List SpTok) :=
+  if s = "-" then some [] else (s.splitOn ",").mapM readTok
+
+end NaijaVerif.Lex
+
 namespace NaijaVerif.Driver.LexD
+open NaijaVerif NaijaVerif.Lex NaijaVerif.Driver
+
+def answer (src : Bytes) : String :=
+  if !Utf8.validUtf8 src then "bad-utf8" else
+  let (ts, ds) := lex src
+  s!"toks={toksStr ts} diags={diagsStr ds} labels={labelsStr ds} end=ok"
+
+def step (_ : Unit) (line : String) : Unit × String :=
+  match words line with
+  | ["lex", h] =>
+    match unhex h with
+    | some src => ((), answer src)
+    | none => ((), "bad-utf8")
+  | ["relay", ho, ht] =>
+    match unhex ho, unhex ht with
+    | some o, some src => ((), if !Utf8.validUtf8 o then "bad-utf8" else answer src)
+    | _, _ => ((), "bad-utf8")
+  | ["readtoks", t] =>
+    -- self-test of the reader: echo the list through `readToks`/`toksStr`
+    match readToks t with
+    | some ts => ((), toksStr ts)
+    | none => ((), "unreadable")
+  | _ => ((), "bad-op")
 
 def main : IO Unit := do
-  IO.eprintln "family lex: not built yet"
+  loop (← IO.getStdin) (← IO.getStdout) () step
 
 end NaijaVerif.Driver.LexD
